@@ -13,6 +13,23 @@
 (*             and the value a reader must return.                         *)
 (* The harness builds the value as the allsorts Rust value, writes it,     *)
 (* parses the result back and reports what it saw.                         *)
+(*                                                                         *)
+(* Value sets: boundary values per field (one-hot around a base record),   *)
+(* and POSITIONAL families (section "Positional families" and its CFF      *)
+(* twin): wherever a structure has per-element flags, per-element lengths  *)
+(* or a header that depends on a count, the feature is put in every        *)
+(* position - first / middle / last / several / none - one dimension at a  *)
+(* time around a base value (composite glyph components x                  *)
+(* WE_HAVE_INSTRUCTIONS / transform kind / argument width / other bits;    *)
+(* cmap 4 segment counts and idRangeOffset segments; name strings and      *)
+(* language tags; post 2.0 names; loca odd / oversize offsets; CFF charset *)
+(* nLeft edges, FDSelect change points, INDEX empty objects, DICT default  *)
+(* entries, item variation store word counts).  Kind "glyphp" carries      *)
+(* simple glyphs in foreign packings (short vectors, "same" coordinates,   *)
+(* REPEAT runs up to the 255 limit): TLC prescribes the packed bytes, the  *)
+(* harness parses them, writes the glyph and parses it again.  The driver  *)
+(* measures the position classes on the printed values and refuses to run  *)
+(* vacuously (REQUIRED_FAMILIES in lib/props/c15.py).                      *)
 (***************************************************************************)
 EXTENDS CffCodec, Json
 
